@@ -78,3 +78,214 @@ func VerifHashPairSeed(seed maphash.Seed, x, y any) (uint64, uint64) {
 	hashValue(&h2, reflect.ValueOf(y))
 	return h1.Sum64(), h2.Sum64()
 }
+
+// ---------------------------------------------------------------------------------
+// In-package harness kernels. Each returns true when the property holds on its inputs.
+// The engine executes them from their SSA with symbolic arguments; natively they are
+// ordinary functions (used to replay counterexamples).
+
+// verifRefUnescape is RFC 6901 section 4: first "~1" -> "/", then "~0" -> "~".
+func verifRefUnescape(s string) string {
+	out := ""
+	for i := 0; i < len(s); i++ {
+		if s[i] == '~' && i+1 < len(s) && s[i+1] == '1' {
+			out += "/"
+			i++
+		} else {
+			out += string(s[i])
+		}
+	}
+	out2 := ""
+	for i := 0; i < len(out); i++ {
+		if out[i] == '~' && i+1 < len(out) && out[i+1] == '0' {
+			out2 += "~"
+			i++
+		} else {
+			out2 += string(out[i])
+		}
+	}
+	return out2
+}
+
+// verifRefSplit splits a pointer that starts with '/' into raw reference tokens.
+func verifRefSplit(p string) []string {
+	var segs []string
+	cur := ""
+	for i := 1; i < len(p); i++ {
+		if p[i] == '/' {
+			segs = append(segs, cur)
+			cur = ""
+		} else {
+			cur += string(p[i])
+		}
+	}
+	return append(segs, cur)
+}
+
+// VerifKernelEscapeRoundTrip: unescape(escape(k)) == k and parse("/"+escape(k)) == [k].
+func VerifKernelEscapeRoundTrip(k string) bool {
+	e := escapeJSONPointerSegment(k)
+	for i := 0; i < len(e); i++ {
+		if e[i] == '/' {
+			return false // an escaped segment never contains a slash
+		}
+	}
+	if unescapeJSONPointerSegment(e) != k {
+		return false
+	}
+	segs, err := parseJSONPointer("/" + e)
+	return err == nil && len(segs) == 1 && segs[0] == k
+}
+
+// VerifKernelParse: for a pointer "/"+rest, parseJSONPointer yields exactly the RFC 6901 tokens.
+func VerifKernelParse(rest string) bool {
+	p := "/" + rest
+	got, err := parseJSONPointer(p)
+	if err != nil {
+		return false
+	}
+	raw := verifRefSplit(p)
+	if len(got) != len(raw) {
+		return false
+	}
+	for i := range raw {
+		if got[i] != verifRefUnescape(raw[i]) {
+			return false
+		}
+	}
+	return true
+}
+
+// VerifKernelParseNoSlash: a non-empty pointer that does not start with '/' is an error; "" is the root.
+func VerifKernelParseNoSlash(p string) bool {
+	segs, err := parseJSONPointer(p)
+	if p == "" {
+		return err == nil && len(segs) == 0
+	}
+	if p[0] != '/' {
+		return err != nil
+	}
+	return err == nil
+}
+
+// ---- C17-K2: dereferenceJSONPointer on a maximal schema
+
+var verifMapKeys = []string{"", "/", "~", "~0", "~1", "%", " ", "é", "0", "-", "a/b", "a", "01", "+1"}
+
+func verifRefEscape(k string) string {
+	out := ""
+	for i := 0; i < len(k); i++ {
+		switch k[i] {
+		case '~':
+			out += "~0"
+		case '/':
+			out += "~1"
+		default:
+			out += string(k[i])
+		}
+	}
+	return out
+}
+
+// kinds: 1 single subschema, 2 array of subschemas (length 2), 3 map of subschemas
+func verifMaxKinds(variant int) map[string]int {
+	m := map[string]int{
+		"additionalProperties": 1, "propertyNames": 1, "contains": 1, "not": 1, "if": 1, "then": 1, "else": 1,
+		"allOf": 2, "anyOf": 2, "oneOf": 2,
+		"properties": 3, "patternProperties": 3,
+	}
+	if variant == 0 { // draft 2020-12 shape
+		m["unevaluatedProperties"], m["unevaluatedItems"], m["contentSchema"], m["items"] = 1, 1, 1, 1
+		m["prefixItems"] = 2
+		m["$defs"], m["dependentSchemas"] = 3, 3
+	} else { // draft-07 shape
+		m["additionalItems"] = 1
+		m["items"] = 2
+		m["definitions"], m["dependencies"] = 3, 3
+	}
+	return m
+}
+
+func verifMaximalSchema(variant int) *Schema {
+	mk := func(title string) *Schema { return &Schema{Title: title} }
+	single := func(kw string) *Schema {
+		s := mk("/" + kw)
+		s.Not = mk("/" + kw + "/not")
+		return s
+	}
+	arr := func(kw string) []*Schema { return []*Schema{mk("/" + kw + "/0"), mk("/" + kw + "/1")} }
+	mp := func(kw string) map[string]*Schema {
+		m := map[string]*Schema{}
+		for _, k := range verifMapKeys {
+			m[k] = mk("/" + kw + "/" + verifRefEscape(k))
+		}
+		return m
+	}
+	s := &Schema{Title: "root", Type: "object", Required: []string{"a"}, Enum: []any{1}}
+	s.AdditionalProperties, s.PropertyNames, s.Contains, s.Not = single("additionalProperties"), single("propertyNames"), single("contains"), single("not")
+	s.If, s.Then, s.Else = single("if"), single("then"), single("else")
+	s.AllOf, s.AnyOf, s.OneOf = arr("allOf"), arr("anyOf"), arr("oneOf")
+	s.Properties, s.PatternProperties = mp("properties"), mp("patternProperties")
+	if variant == 0 {
+		s.UnevaluatedProperties, s.UnevaluatedItems, s.ContentSchema, s.Items = single("unevaluatedProperties"), single("unevaluatedItems"), single("contentSchema"), single("items")
+		s.PrefixItems = arr("prefixItems")
+		s.Defs, s.DependentSchemas = mp("$defs"), mp("dependentSchemas")
+	} else {
+		s.AdditionalItems = single("additionalItems")
+		s.ItemsArray = arr("items")
+		s.Definitions, s.DependencySchemas = mp("definitions"), mp("dependencies")
+		s.DependencyStrings = map[string][]string{"zz": {"a"}}
+	}
+	return s
+}
+
+// verifRefDeref is the RFC 6901 reading of "/"+seg1+"/"+seg2 (seg2 absent if hasSeg2 is
+// false) on the maximal schema's JSON document: the marker of the designated subschema,
+// or "" when the pointer designates no subschema.
+func verifRefDeref(variant int, seg1 string, hasSeg2 bool, seg2 string) string {
+	k := verifRefUnescape(seg1)
+	kind := verifMaxKinds(variant)[k]
+	if !hasSeg2 {
+		if kind == 1 {
+			return "/" + k
+		}
+		return ""
+	}
+	t := verifRefUnescape(seg2)
+	switch kind {
+	case 1:
+		if t == "not" {
+			return "/" + k + "/not"
+		}
+	case 2:
+		// array index: "0" or a non-zero digit followed by digits, within bounds
+		if t == "0" {
+			return "/" + k + "/0"
+		}
+		if t == "1" {
+			return "/" + k + "/1"
+		}
+	case 3:
+		for _, key := range verifMapKeys {
+			if key == t {
+				return "/" + k + "/" + verifRefEscape(key)
+			}
+		}
+	}
+	return ""
+}
+
+// VerifKernelDeref: dereferenceJSONPointer designates exactly what RFC 6901 designates.
+func VerifKernelDeref(variant int, seg1 string, hasSeg2 bool, seg2 string) bool {
+	s := verifMaximalSchema(variant)
+	p := "/" + seg1
+	if hasSeg2 {
+		p += "/" + seg2
+	}
+	got, err := dereferenceJSONPointer(s, p)
+	want := verifRefDeref(variant, seg1, hasSeg2, seg2)
+	if want == "" {
+		return err != nil
+	}
+	return err == nil && got != nil && got.Title == want
+}
